@@ -110,8 +110,21 @@ def r2_stable_time_sort(ctx, f):
             asc = (b.path, 2) in a0.nodes and (b.path, 3) in a1.nodes and (b.path, 3) not in a0.nodes
             if t0 and t1 and asc:
                 ok = True
+    how = "comparator is a.time().cmp(b.time()) (ascending)"
+    if not ok and n in ("sort_by_key", "sort_by_cached_key"):
+        # key form: the key closure returns (a copy of) the record's time()
+        for b in f.bodies:
+            if b.kind != "Closure" or b.argc != 2:
+                continue
+            fgk = FlowGraph(ws, ws.fns[b.root])
+            sl = fgk.back([(b.path, 0)])
+            if any(cname(c[2]) == "time" for c in sl.calls) and (b.path, 2) in sl.nodes \
+                    and not any(cname(c[2]) in ("Reverse", "neg", "not") or "cmp::Reverse" in (c[2].get("callee") or "") for c in sl.calls) \
+                    and not any("Reverse" in (a_[1].get("adt") or "") for a_ in sl.aggs):
+                ok = True
+                how = "sort key is the record's time() (ascending by key)"
     if ok:
-        r.ok(k, cfg.loc(body, i), "comparator is a.time().cmp(b.time()) (ascending)", work=len(cl))
+        r.ok(k, cfg.loc(body, i), how, work=len(cl))
     else:
         r.violation(k, cfg.loc(body, i), "the sort comparator is not `a.time().cmp(b.time())` on the two records (ascending by record time)", work=len(cl))
 
